@@ -144,6 +144,7 @@ type Engine struct {
 	fastDecisions int
 	top          *frame
 	curInitPkg   *ssa.Package
+	poisoned     map[*ssa.Global]bool // globals assigned by package initialisers that are not interpreted
 	syncMaps     map[*Value]*Map // contents of sync.Map values
 	syncMapOp    bool            // inside a sync.Map operation (internally synchronised: no race reports)
 	poolItems    map[*Value][]Value
